@@ -1,6 +1,7 @@
 from harness import evprops, hcommon, hprop_run, sysprops
 
 PROP = "C03"
+EXTRA_PROPS = ("C03u",) if PROP == "C03" else ()    # unbounded K = 1: any single lost File Data PDU, any file
 RULES = {
  "C02": "fault-free link: modes x closure x checksum types x sizes 0..13 x random CRC flag / id widths / seq widths / segment length / "
         "max packet length / NAK mode x destination as file / directory / existing file x pacing (0-3 extra empty calls per round), "
@@ -16,7 +17,7 @@ RULES = {
 
 def run(tier, seed):
     hc = hcommon.HandlerCheck(PROP, tier, seed)
-    hc.gate()
+    hc.gate(EXTRA_PROPS)
     n_success_checks = 0
     for case in hcommon.share(sysprops.c03_cases(tier, hc.rng)):
         case.run()
